@@ -26,9 +26,12 @@ ASSUMPTIONS = [
     'bounded: the port-tree families and instance universes listed under coverage.families (exhaustive inside them); '
     'thorough adds seeded hypothesis-generated larger trees evaluated by the same TLA+ operators',
     'value domain: ints {0,-1,7}, strings {"s","d",""}, None (given for a leaf port, for an undeclared key, inside a dynamic mapping, '
-    'as a plain or callable default; given for a declared namespace only when ports_model.NONE_FOR_NAMESPACE is on), nested dicts '
-    'over keys z/u/w; valid_type in {None,int,str}; validators: reject a negative int (port) / a mapping with a negative direct value '
-    '(namespace); namespace `default` is not used; specs that cannot be declared (a plain default its own port rejects) are not part '
+    'as a plain or callable default; given for a declared namespace only when ports_model.NONE_FOR_NAMESPACE is on; emitted for a '
+    'declared output namespace only when ports_model.NONE_OUTPUT_FOR_NAMESPACE is on - it is OFF: out(ns, None) stores the None), nested dicts '
+    'over keys z/u/w (C12 family typed_validators: also None as an emitted value); valid_type in {None,int,str}; validators: reject '
+    'a negative int (port, total) / a mapping with a negative direct value (namespace, total); two port validators that rely on the '
+    'type of their argument (`value > 0`, `value.isalpha()`; they raise when given another type), only on ports that declare that type '
+    '(Ports!WellTyped: what a validator that crashes on a value its port admits should mean is outside the properties); namespace `default` is not used; specs that cannot be declared (a plain default its own port rejects) are not part '
     'of the universe (Ports!Declarable)',
     'TLC invariants transfer to the implementation only through the instance-by-instance comparison of the operational model '
     'with the real classes (constructor outcome, inputs, read-only levels, raw_inputs, caller dict; out() outcome, outputs after '
@@ -113,7 +116,7 @@ def hypothesis_family(kind, seed, n_trees, per_tree):
 
     names = 'abcdefgh'
     ints = [0, -1, 7]
-    leafvals = [0, -1, 7, 's', 'd', {}, {'u': 0}, {'u': 's'}]
+    leafvals = [0, -1, 7, 's', 'd', '', {}, {'u': 0}, {'u': 's'}]
     extravals = [0, 's', -1, {}, {'u': 0}, {'u': 's'}, {'u': {'w': 's'}}, {'u': {'w': 0}, 'w': 0}]
     nsvals = ['absent', 'absent', 'dict', 'dict', 'dict', 'dict', 0, 's', '']
     if kind == 'input':          # None as a supplied value (C11)
@@ -124,7 +127,8 @@ def hypothesis_family(kind, seed, n_trees, per_tree):
 
     def gen_leaf(draw):
         vt = draw(st.sampled_from(['none', 'int', 'str']))
-        val = draw(st.sampled_from(['none', 'nonneg']))
+        # a validator that relies on a type only on a port that declares that type (Ports!WellTyped)
+        val = draw(st.sampled_from(['none', 'nonneg'] + ({'int': ['pos'], 'str': ['word']}.get(vt, []))))
         leaf = dict(node='leaf', req=draw(st.booleans()), vt=vt, val=val)
         if kind == 'input':
             good = 'd' if vt == 'str' else 7
@@ -171,7 +175,10 @@ def hypothesis_family(kind, seed, n_trees, per_tree):
             d['z'] = draw(st.sampled_from(extravals))
         return d
 
+    ns_paths = set()
+
     def paths_of(ns, prefix, out):
+        ns_paths.add('.'.join(prefix))
         out.append(prefix + ['z'])
         out.append(prefix + ['z', 'u'])
         out.append(prefix + ['z', 'u', 'w'])
@@ -184,9 +191,12 @@ def hypothesis_family(kind, seed, n_trees, per_tree):
 
     def gen_work(draw, tree):
         paths = []
+        ns_paths.clear()
         paths_of(tree, [], paths)
         k = draw(st.integers(0, 4))
-        calls = [('.'.join(draw(st.sampled_from(paths))), draw(st.sampled_from(leafvals + [{'u': {'w': 0}}]))) for _ in range(k)]
+        calls = [('.'.join(draw(st.sampled_from(paths))), draw(st.sampled_from(leafvals + [{'u': {'w': 0}}, None]))) for _ in range(k)]
+        if not ports_model.NONE_OUTPUT_FOR_NAMESPACE:      # None emitted for a declared namespace: see ports_model
+            calls = [(p, 0 if v is None and p in ns_paths else v) for p, v in calls]
         split = draw(st.integers(0, max(0, k - 1)))
         return calls, split, draw(st.integers(0, 5)) != 0
 
